@@ -1355,6 +1355,9 @@ size_t ZSTDMT_initCStream_internal(
     mtctx->allJobsCompleted = 0;
     mtctx->consumed = 0;
     mtctx->produced = 0;
+    /* the tables of the serial state come from this context's allocator :
+     * nothing ever stored the caller's allocator into the requested parameters */
+    params.customMem = mtctx->cMem;
     if (ZSTDMT_serialState_reset(&mtctx->serial, mtctx->seqPool, params, mtctx->targetSectionSize,
                                  dict, dictSize, dictContentType))
         return ERROR(memory_allocation);
